@@ -10,8 +10,14 @@ C10 line protocol.  One line = one whole history.
       g<idx>         bl[idx]               -> value | `E`
       n              len(bl)               -> number
       t              list(bl)              -> values joined by `.` (`~` = empty)
+  H <op> ...                    heapq level: the functions HeapPriorityQueue calls, on a list of naturals
+      u<val>         heappush(h, val)      -> the list afterwards (values joined by `.`, `~` = empty)
+      o              heappop(h)            -> `<value>|<list afterwards>` | `E` (IndexError)
   Q <size_factor> <op> ...      queue level, run on SortedPriorityQueue and HeapPriorityQueue
-      a<task>:<prio> add(task, priority)   -> `-`      (prio: integer, = 2 * float(priority or 0))
+      a<task>:<prio> add(task, priority)   -> `-`      prio = the argument as passed:
+                     `N` None (or left out) | `T` / `F` bool | `I<int>` int | `D<m>/<e>` the float m/2^e
+                     (the model evaluates `float(priority or 0)` itself) | `X<m>/<e>` a queue built with a
+                     custom priority_key: key(priority) = m/2^e, stored as is (effective priority -m/2^e)
       r<task>        remove(task)          -> `-` | `KeyError`
       p / P<i>       pop() / pop(default #i)  -> `t<task>` | `IndexError` | `d<i>`
       k / K<i>       peek() / peek(default #i)   (i names which object was given as default)
@@ -43,11 +49,43 @@ def blStep (limit : Nat → Nat) (b : BL Nat) (tok : String) : Option (BL Nat ×
   | 't' => if rest = "" then some (b, showVals b.toList) else none
   | _ => none
 
-def parseOp (tok : String) : Option (Op Nat) :=
+def natLt (a b : Nat) : Bool := decide (a < b)
+
+def heapStep (h : List Nat) (tok : String) : Option (List Nat × String) :=
+  let rest := (tok.drop 1).toString
+  match tok.front with
+  | 'u' => rest.toNat?.map fun x => (heappush natLt x h, showVals (heappush natLt x h))
+  | 'o' => if rest = "" then
+      match heappop natLt h with
+      | some (x, h') => some (h', toString x ++ "|" ++ showVals h')
+      | none => some (h, "E")
+    else none
+  | _ => none
+
+def parseDy (s : String) : Option Dy :=
+  match splitOnChar s '/' with
+  | [m, e] => match m.toInt?, e.toNat? with
+    | some m, some e => some ⟨m, e⟩
+    | _, _ => none
+  | _ => none
+
+/-- the effective priority (`float(priority or 0)`, or `-key(priority)` for a custom key) of a token -/
+def parsePrio (tok : String) : Option Dy :=
+  let rest := (tok.drop 1).toString
+  match tok.front with
+  | 'N' => if rest = "" then some PyPrio.none.eff else none
+  | 'T' => if rest = "" then some (PyPrio.bool true).eff else none
+  | 'F' => if rest = "" then some (PyPrio.bool false).eff else none
+  | 'I' => rest.toInt?.map fun n => (PyPrio.int n).eff
+  | 'D' => (parseDy rest).map fun d => (PyPrio.float d.m d.e).eff
+  | 'X' => (parseDy rest).map Dy.neg
+  | _ => none
+
+def parseOp (tok : String) : Option (ROp Nat Dy) :=
   let rest := (tok.drop 1).toString
   match tok.front with
   | 'a' => match splitOnChar rest ':' with
-    | [t, p] => match t.toNat?, p.toInt? with
+    | [t, p] => match t.toNat?, parsePrio p with
       | some t, some p => some (.add t p)
       | _, _ => none
     | _ => none
@@ -93,11 +131,22 @@ def handle (line : String) : String :=
       match go BL.empty toks [] with
       | some outs => ",".intercalate outs
       | none => "bad-op"
+  | "H" :: toks =>
+    let rec goH (h : List Nat) (toks : List String) (acc : List String) : Option (List String) :=
+      match toks with
+      | [] => some acc.reverse
+      | t :: ts => match heapStep h t with
+        | some (h', out) => goH h' ts (out :: acc)
+        | none => none
+    match goH [] toks [] with
+    | some outs => ",".intercalate outs
+    | none => "bad-op"
   | "Q" :: sf :: toks =>
     match sf.toNat?, toks.mapM parseOp with
-    | some sf, some ops =>
+    | some sf, some rops =>
+      let ops := normalize rops
       let s := runOuts (sortedBackend (curSizeLimit sf)) ops
-      let h := runOuts listHeap ops
+      let h := runOuts binHeap ops
       "S=" ++ ",".intercalate (s.map showOut) ++ " H=" ++ ",".intercalate (h.map showOut)
     | _, _ => "bad-op"
   | _ => "bad-op"
